@@ -701,6 +701,25 @@ pub fn c04(tier: Tier) -> Vec<Scenario> {
         out.push(s);
     }
 
+    // the write side fails while operations wait for a server that stays silent; the first
+    // write after the failure is an Abandon / a second request
+    for third in ["abandon", "single"] {
+        let mut s = Scenario::new(&format!("C04/write-fault-with-silent-server-{}", third));
+        s.clients = vec![
+            client(vec![single(OpKind::Compare, "q0")]),
+            client(vec![single(OpKind::Delete, "q1")]),
+            client(vec![if third == "abandon" { Call::Abandon(AbTarget::Marker("q1".into())) } else { single(OpKind::Bind, "q2") }]),
+        ];
+        for m in ["q0", "q1", "q2"] {
+            s.plans.insert(m.into(), Plan { silent: true, ..Default::default() });
+        }
+        s.faults = vec![FaultKind::WriteErr, FaultKind::WritePartial(2)];
+        s.fault_budget = 1;
+        s.select_starts = vec![1];
+        s.oracles = o.clone();
+        out.push(s);
+    }
+
     // unbind by another handle while operations are pending
     let mut s = Scenario::new("C04/unbind-while-pending");
     s.clients = vec![
